@@ -74,13 +74,14 @@ func main() {
 		}
 		scs = append(scs, sc)
 	}
-	// the data dimension: seeded random scenarios over the xid flavours (after the enumerated ones)
-	nextra := 32
-	if o.Thorough() {
-		nextra = 240
-	}
+	// the data dimension.  The scenario list has the same layout in both tiers (replays name a scenario
+	// by its index): [0, N) the enumerated scenarios with plain xids; [N, N+nExtra) seeded random
+	// scenarios over the xid flavours (quick runs the first nExtraQuick of them); [N+nExtra, 2N+nExtra)
+	// the enumerated scenarios again with an xid that contains '-' (thorough only).
+	const nExtra, nExtraQuick = 640, 32
+	nEnum := len(scs)
 	r := o.Rand(7)
-	for j := 0; j < nextra; j++ {
+	for j := 0; j < nExtra; j++ {
 		sc := scenario{Kind: []string{"ins", "upd", "del", "sel"}[r.Intn(4)], Mode: []string{"auto", "explicit"}[r.Intn(2)], Reg: "ok",
 			P2: []string{"commit", "rollback"}[r.Intn(2)], How: []string{"once", "once", "dup", "restart"}[r.Intn(4)],
 			Ver: []string{"8.0.28", "8.0.30"}[r.Intn(2)], Xid: []string{"dash", "dash", "long", "quote", "bigbid"}[r.Intn(5)]}
@@ -88,6 +89,14 @@ func main() {
 			sc.FailAt = 1 + r.Intn(4)
 		}
 		scs = append(scs, sc)
+	}
+	for j := 0; j < nEnum; j++ {
+		sc := scs[j]
+		sc.Xid = "dash"
+		scs = append(scs, sc)
+	}
+	inTier := func(i int) bool {
+		return o.Only != nil || o.Thorough() || i < nEnum+nExtraQuick
 	}
 
 	w, err := trace.NewWriter(o.Out)
@@ -111,11 +120,8 @@ func main() {
 	}
 	refused := 0
 	for i, sc := range scs {
-		if !o.Want(i) {
+		if !o.Want(i) || !inTier(i) {
 			continue
-		}
-		if o.Thorough() && sc.Xid == "" && (i+int(o.Seed))%2 == 0 {
-			sc.Xid = "dash" // thorough: half of the enumerated scenarios run with an xid that contains '-'
 		}
 		cls := fmt.Sprintf("kind=%s,mode=%s,reg=%s,failAt=%d,p2=%s,how=%s,ver=%s,reuse=%d,xid=%s", sc.Kind, sc.Mode, sc.Reg, sc.FailAt, sc.P2, sc.How, sc.Ver, sc.Reuse, sc.Xid)
 		t := w.Begin(map[string]interface{}{"i": i, "sc": sc}, cls)
@@ -151,8 +157,16 @@ func xidFor(flavour string, r rnd) string {
 
 // expectedID is the identifier every XA command of the branch has to carry: the function of
 // (xid, branch id) that xa_branch_xid.go defines - the xid text, '-', the branch id in decimal.
-func expectedID(xid string, bid int64) string {
+func expectedID(xid string, bid int64) string { // (documentation of the present format; see idOK)
 	return xid + "-" + strconv.FormatUint(uint64(bid), 10)
+}
+
+// idOK: the identifier that reached the database is f(xid, branch id) - sent as one string (gtrid
+// only, what the code does today) or as the two parts XABranchXid encodes, gtrid = xid and
+// bqual = "-<branch id>" (memsql reports a two-part xid as "gtrid,bqual").
+func idOK(got, xid string, bid int64) bool {
+	d := strconv.FormatUint(uint64(bid), 10)
+	return got == xid+"-"+d || got == xid+",-"+d
 }
 
 func stmtSQL(kind string) (q string, args []interface{}, query bool) {
@@ -375,7 +389,6 @@ func run(lab *atlab.XALab, t *trace.T, sc scenario, r rnd) (refused bool) {
 	seqEnd := tc.NextSeq()
 
 	// ---------------------------------------------------------------- merge the logs
-	want := expectedID(xid, bid)
 	connIdx := map[int]int{}
 	faultClass := "none"
 	ids1, ids2 := map[string]bool{}, map[string]bool{}
@@ -403,7 +416,7 @@ func run(lab *atlab.XALab, t *trace.T, sc scenario, r rnd) (refused bool) {
 			} else {
 				ids2[e.XAID] = true
 			}
-			evs = append(evs, obs{e.Seq, "Xa", []interface{}{"cmd", cmd, "idok", e.XAID == want, "res", res, "c", c, "errno", e.ErrNo}})
+			evs = append(evs, obs{e.Seq, "Xa", []interface{}{"cmd", cmd, "idok", idOK(e.XAID, xid, bid), "res", res, "c", c, "errno", e.ErrNo}})
 		case xaVerb(e.SQL) != "":
 			// the text is an XA command the database could not even take: a syntax error (1064) or an
 			// identifier it rejects as such (1398, longer than 64 bytes)
@@ -423,7 +436,7 @@ func run(lab *atlab.XALab, t *trace.T, sc scenario, r rnd) (refused bool) {
 					faultClass = xaVerb(e.SQL)
 				}
 			}
-			evs = append(evs, obs{e.Seq, "Xa", []interface{}{"cmd", xaVerb(e.SQL), "idok", id == want && e.ErrNo != 1064, "res", r, "c", c, "errno", e.ErrNo}})
+			evs = append(evs, obs{e.Seq, "Xa", []interface{}{"cmd", xaVerb(e.SQL), "idok", idOK(id, xid, bid) && e.ErrNo != 1064, "res", r, "c", c, "errno", e.ErrNo}})
 		case strings.EqualFold(e.Table, "acct"):
 			if res == "fault" && ph1 {
 				faultClass = "dml"
@@ -541,7 +554,7 @@ func idsLeg(o *common.Opts) {
 	w.SetBase(o.TraceBase())
 	n := 400
 	if o.Thorough() {
-		n = 4000
+		n = 20000
 	}
 	r := o.Rand(17)
 	alphabet := []string{"-", ":", "'", ".", "0", "1", "9", "a", "Z", " ", "\\", ","}
